@@ -368,6 +368,12 @@ func c09Scenarios(tier string) []*world.Scenario {
 			out = append(out, c09Scenario(p, b))
 		}
 	}
+	// round 10: a fragment's reply is followed by further replies in the same backend read
+	for _, kind := range []string{"mget", "del", "mset"} {
+		for _, tail := range []int{1, 3} {
+			out = append(out, MultiThenSame("C09", kind, tail, 2))
+		}
+	}
 	return out
 }
 
@@ -1043,6 +1049,15 @@ func c07Scenarios(tier string) []*world.Scenario {
 	bigd.ReadCap, bigd.WriteCap = 4096, 4096
 	bigd.Horizon = 4000
 	out = append(out, bigd)
+	// round 10: the split request is the first one on connections that start with a handshake, replies share one read
+	for _, kind := range []string{"mget", "del", "mset"} {
+		for _, cfg := range []struct {
+			pw       string
+			replicas bool
+		}{{"secret", false}, {"", true}, {"secret", true}} {
+			out = append(out, ColdSplit("C07", kind, cfg.pw, cfg.replicas, 2))
+		}
+	}
 	return out
 }
 
